@@ -139,6 +139,18 @@ def l1_operation_dags(ctx: Ctx):
     # fast_2sum states its ordering precondition
     d = DagBuilder(funcs['fast_2sum']).run()
     ctx.check(any('abs' in show(t) and 'GtE' in show(t) for _, t in d.asserts), EFT, funcs['fast_2sum'], 'fast_2sum', 'asserts |a| >= |b| (or a non-finite operand)', 'precondition no longer checked')
+    # ... and no more than that: ErrFma ends in Fast2Sum(g, a2), for which Boldo and Muller prove "g = 0 or |g| >= |a2|";
+    # a precondition without the first alternative refuses operands the published algorithm is exact on
+    asserts = [s_ for s_ in funcs['fast_2sum'].body if isinstance(s_, ast.Assert)]
+    alts = set()
+    for s_ in asserts:
+        t_ = s_.test
+        alts |= {norm(v) for v in (t_.values if isinstance(t_, ast.BoolOp) and isinstance(t_.op, ast.Or) else [t_])}
+    params = [x.arg for x in funcs['fast_2sum'].args.args]
+    zero_ok = {f'{params[0]} == 0', f'0 == {params[0]}', f'{params[0]} == 0.0'} & alts
+    uses = any(call_name(k) == 'fast_2sum' for k in calls_in(funcs['classic_2fma']))
+    ctx.check(bool(zero_ok) or not uses, EFT, asserts[0] if asserts else funcs['fast_2sum'], 'fast_2sum', 'the precondition admits a zero first operand (classic_2fma hands it g = 0 with a2 != 0)',
+              f'alternatives: {sorted(alts)}: classic_2fma raises AssertionError on ordinary binary64 triples instead of returning (r1, a2, 0)')
 
 
 def l2_exact_parts(ctx: Ctx):
@@ -320,6 +332,8 @@ RULES = [
 from ..selftest import Mutant  # noqa: E402
 
 MUTANTS = [
+    Mutant('fast-2sum-refuses-a-zero-first-operand', EFT, "    assert core.isnar(a) or core.isnar(b) or a == 0 or abs(a) >= abs(b)", "    assert core.isnar(a) or core.isnar(b) or abs(a) >= abs(b)", 'C20.L1',
+           'finding F87 before its repair: classic_2fma raises AssertionError on ordinary binary64 triples'),
     Mutant('exact-sum-declines-distant-operands', 'fpy2/number/engine/real.py', "                case Float(), Float():\n                    r = x.as_real() + y.as_real()\n                    return Float(x=r, ctx=REAL)",
            "                case Float(), Float():\n                    xr, yr = x.as_real(), y.as_real()\n                    if xr.is_nonzero() and yr.is_nonzero() and abs(xr.e - yr.e) > 65536:\n                        return None\n                    return Float(x=xr + yr, ctx=REAL)", 'C20.L4',
            'seeded change C20d: ideal_2sum(2**100000, 2**-100000) under FP256 raises'),
